@@ -22,7 +22,7 @@ main = sh("git -C /repo rev-parse --short main")[1].strip()
 dirs = []
 for d in sorted(glob.glob(os.path.join(V, "seeded", "C*-*"))):
     m = json.load(open(os.path.join(d, "meta.json")))
-    if m.get("superseded"):
+    if m.get("superseded") or m.get("not_a_violation"):
         continue
     pid = (m.get("check") or {}).get("property_checked") or m.get("property") or os.path.basename(d)[:3]
     if only and pid not in only and os.path.basename(d)[:3] not in only:
